@@ -260,6 +260,8 @@ async def _run_str(case, exact):
         return {"error": "ValueError"}
     steps = describe_steps(eng._builder._steps)  # pylint: disable=protected-access
     fetch = [[k, bool(f._nones_are_zeros)] for k, f in eng._builder._metric_fetchers.items()]  # pylint: disable=protected-access
+    if not fetch:
+        return {"steps": steps, "fetchers": fetch, "out": [], "no_inputs": True}
     rx = eng.new_receiver()
     names = sorted({k for r in case["rows"] for k in r})
     senders = {}
@@ -360,6 +362,8 @@ async def _run_raw(case, exact):
     eng = b.build()
     steps = describe_steps(eng._builder._steps)  # pylint: disable=protected-access
     fetch = [[k, bool(f._nones_are_zeros)] for k, f in eng._builder._metric_fetchers.items()]  # pylint: disable=protected-access
+    if not fetch:
+        return {"steps": steps, "fetchers": fetch, "out": [], "no_inputs": True}
     rx = eng.new_receiver()
     senders = {n: chans[n].new_sender() for n in names}
     await asyncio.sleep(0)
@@ -697,6 +701,8 @@ def c_outcome(o):
 
 def c_rows(case, obs):
     rows = []
+    if obs.get("no_inputs"):
+        return "[]"     # a formula without input streams is never run (its engine would spin, see harness note)
     for row, o in zip(case["rows"], obs["out"]):
         co = c_outcome(o)
         if co is None:
